@@ -1091,10 +1091,32 @@ def gen_extra(tier, seed, F, T):
                    ['php', str(n), '3', '-T', d['name']] + ['3', '2'][:d['arity']])
 
 
+LARGE_COMMANDS = [['and', '35', '0'], ['and', '36', '0'], ['and', '35', '1'], ['and', '70', '1'],
+                  ['and', '1025', '0'], ['php', '20', '18'], ['php', '6', '5', '--functional'],
+                  ['op', '6'], ['kcolor', '3', 'grid', '4', '4'], ['parity', '9'],
+                  ['php', '5', '4', '-T', 'xor', '2'], ['tseitin', 'first', 'grid', '4', '5']]
+LARGE_SELECTORS = [['-of', 'dimacs'], ['-of', 'opb'], ['-of', 'latex'], ['-l'], ['-o', 'o.tex'],
+                   ['-o', 'o.opb'], ['--varnames', '-of', 'latex'], ['-q', '-of', 'latex'],
+                   ['--varnames', '-of', 'opb']]
+
+
+def gen_large_outputs(tier):
+    """formulas with more rows than a LaTeX page (35) or a writer block
+    (1024), in every output format of both tools"""
+    for tool in ('cnfgen', 'pbgen'):
+        for sel in LARGE_SELECTORS:
+            if tool == 'pbgen' and sel[:2] == ['-of', 'dimacs']:
+                continue
+            for cmd in LARGE_COMMANDS:
+                if tool == 'pbgen' and '-T' in cmd:
+                    continue
+                yield case('large-output', tool, cmd[0], sel, cmd, core=True)
+
+
 def all_cases(tier, seed):
     """the complete, ordered, duplicate-free list of cases of a tier"""
     F, T = registry()
-    gens = [gen_main(tier, F), gen_tokens(tier, F), gen_box(tier, F),
+    gens = [gen_large_outputs(tier), gen_main(tier, F), gen_tokens(tier, F), gen_box(tier, F),
             gen_graph_hosts(tier, F),
             gen_options(tier, F), gen_formats(tier, F),
             gen_graph_grammar(tier), gen_files(tier, F),
